@@ -25,14 +25,23 @@ PROP = {
             "C13_1_refuted": "full, by vm_compute (24 s for the whole witness file; each of encode/decode on the 3857-scalar witness takes 2-4 s in the VM; N, not nat, is used throughout).",
             "C13_2_refuted": "full, proved symbolically for 'a' x (2^32 - 1) ++ \"-a\" (no computation on the 4 GiB list).",
             "C13_spec_round_trip": "full: s_decode (s_encode s) = Some s for every list of scalar values, over unbounded integers (step (2) of the plan; uses C13_vli_partial and the reading of the decoder state <n,i> as n*(L+1)+i).",
-            "C13_dec_enc_partial": "PARTIAL. Full statements kept as C13_dec_enc_statement and C13_dec_enc_small_statement (Definitions). Proved for every usv_list s with encode s = Some p (p shorter than 2^32): p is the unbounded RFC 3492 encoding, the unbounded decoding of p is s, and the u32 decoder returns Some s or None - never another string, never a panic. GAP (one direction of step (3)): `~ Known_C13 s` (resp. length s <= 3854) implies that none of the decoder's three 32-bit checks fires; this needs the instrumented walk of known_c13 to be tied to the decoder's i (same invariant as C13_spec_round_trip) and bias <= 215 to exclude a weight overflow in front of a final zero digit. Until then completeness of the class Known_C13 rests on the correspondence / search runs and on C13_small_scope (both round trips computed in the kernel for all sequences of length <= 4 over the class alphabets).",
-            "C13_enc_dec_partial": "PARTIAL. Full statement kept as C13_enc_dec_statement. Proved: decode p = Ok s and encode s = Ok q imply s = unbounded decoding of p, q = unbounded encoding of s, q ASCII. GAP: uniqueness of the variable-length-integer representation (encode after decode reproduces the digits in lower case) and the <n,i> monotonicity argument.",
+            "C13_dec_enc": "full (closes C13_dec_enc_statement): for every usv_list s with encode s = Some p and s outside Known_C13, decode p = Some s, in both configurations; no length hypothesis on p (on an encoder output `base_len as u32` and `length + 1` cannot overflow). Route: the RFC 3492 decoder with the decoder's 32-bit checks written out (b_dec_loop) is followed by the model's decoder (C13_decoder_complete); the bias is at most 215 while deltas fit in 32 bits (C13_bias_bound), so inside one variable-length integer the weight check cannot fire, not even in front of a final zero digit (b_vli_decode: weights stay below 35^6 for the first six digits, afterwards t = 26 and the next weight 10 w <= 26 w <= delta); the encoder succeeded, so every delta fits, and known_c13 s = false then gives di + delta <= u32::MAX at every step (link_outer), which is all the checked decoder needs (b_outer_rt, the invariant of C13_spec_round_trip).",
+            "C13_dec_enc_small": "full (closes C13_dec_enc_small_statement): length s <= 3854 needs no exclusion. C13_dec_enc_small_3855 is the sharper bound actually proved (di + delta <= 1113983 * 3855 + 3854 < 2^32); the witness of F-C13-1 has 3857 scalars and C13_dec_enc_premises_hold exhibits a 3856-scalar input outside the class.",
+            "C13_dec_enc_small_3855": "full (length s <= 3855, no exclusion).",
+            "C13_bias_bound": "full: s_adapt d np first <= 215 for d <= u32::MAX.",
+            "C13_decoder_complete": "full: a successful run of the checked unbounded decoder b_dec_loop on the part after the last delimiter is a successful run of decode with the same result.",
+            "C13_dec_enc_partial": "full as stated (kept; superseded by C13_dec_enc, which removes the 'or None' alternative outside Known_C13).",
+            "C13_enc_dec": "full (closes C13_enc_dec_statement): decode p = Some s (p shorter than 2^32 code units) implies encode s = Some q with q = the basic part of p, the delimiter, and the digits of p in lower case, in both configurations. Route: an Ok run of the model's decoder is a run of the checked decoder (decode_b); the decoder's <n, i> monotonicity (C13_decoder_monotone) identifies the decoder's next insertion with the encoder's next occurrence in the FINAL string (next_insertion), hence equal deltas; equal deltas under equal bias have equal digit strings up to case (C13_vli_unique); the decoder's own check i + delta <= u32::MAX bounds every partial delta of the encoder, so the u32 encoder does not overflow (link_outer_conv).",
+            "C13_enc_dec_all": "full, and stronger than the property text: the hypothesis 'at least one non-ASCII scalar' is not needed (an all-ASCII s arises only from p = s ++ \"-\" or p = \"\", which re-encode to themselves).",
+            "C13_enc_dec_partial": "full as stated (kept; superseded by C13_enc_dec).",
+            "C13_vli_unique": "full: uniqueness of the generalized variable-length integer representation, on the decoder side.",
+            "C13_decoder_monotone": "full: every later insertion is lexicographically later in <n, i>.",
         },
     }
 
 TEXT = {
   "level": "Machine-checked Coq theorems about an executable Gallina model of idna/src/punycode.rs (u32 arithmetic explicit, both caller kinds, both overflow-check configurations), with the Bootstring constants and digit tables regenerated from the Rust source on every run; the model is tied to the code by a correspondence run of the extracted model against the crate in both cargo profiles.",
   "design_ref": "DESIGN.md section 8 C13, Appendix B.1, section 9 F-C13-1",
-  "note": "Full: ASCII output; no panic and no wrong answer (Some results equal an unbounded-integer transcription of RFC 3492, itself compared with an independent reference by the harness) in both overflow-check configurations; internal (unchecked) encoder = checked encoder up to 1000 scalars; insertion-list representation = direct insertion; variable-length integers decode to what was encoded. Bootstring over unbounded integers is proved invertible (decode after encode). Partial: for the u32 code decode(encode(s)) is proved to be s or None (never another string); that it is not None outside the class Known_C13 is not proved (full statements kept as Definitions; both round trips are computed in the kernel for all sequences of length <= 4 over the class alphabets); encode(decode(p)) is proved to consist of the two unbounded algorithms, not yet to reproduce p. Known findings: F-C13-1 (decode(encode(U+0080 x 3856 ++ [U+10FE4F])) = None) and F-C13-2 (decode panics on inputs with 2^32 - 1 basic code units), both with machine-checked witnesses and confirmed on the crate.",
+  "note": "Full: ASCII output; no panic and no wrong answer (Some results equal an unbounded-integer transcription of RFC 3492, itself compared with an independent reference by the harness) in both overflow-check configurations; internal (unchecked) encoder = checked encoder up to 1000 scalars; insertion-list representation = direct insertion. Both round trips are proved through the u32 model in both configurations: decode(encode(s)) = s for every sequence of scalar values whose encoding is produced and which is outside the computable class Known_C13 of finding F-C13-1 (the class is empty up to 3855 scalars), and encode(decode(p)) = p up to the case of the digits for every p shorter than 2^32 code units that decodes (even without the 'at least one non-ASCII' hypothesis). The exclusion Known_C13 cannot be dropped (C13_1_refuted). Known findings: F-C13-1 (decode(encode(U+0080 x 3856 ++ [U+10FE4F])) = None) and F-C13-2 (decode panics on inputs with 2^32 - 1 basic code units), both with machine-checked witnesses and confirmed on the crate.",
   "technique": "Coq proof over Gallina model + table translator + extracted-model/implementation correspondence",
  }
